@@ -10,6 +10,7 @@ pub mod model;
 pub mod geninst;
 pub mod genmod;
 pub mod refparse;
+pub mod textread;
 pub mod bmodel;
 pub mod loadcmp;
 pub mod mutate;
